@@ -115,7 +115,15 @@ def make_job(rng: random.Random, g, b: int, j: int, fail_kind=None, force=None) 
         data = 0.0
         nodes = [{"processor": "VAdd", "parameters": {"addend": u}}, {"processor": "VValueProbe", "context_key": f"probe_{s}"}]
     elif kind == "gen":
-        case = g.pipeline(max_len=6, fault_bias=0.15)
+        case = None
+        for _ in range(8):
+            try:
+                case = g.pipeline(max_len=6, fault_bias=0.15)
+                break
+            except Exception:  # noqa: BLE001 - the generator itself rejects some ill-formed sweep configurations
+                continue
+        if case is None:
+            case = {"nodes": list(chain), "ctx": {}, "data": u}
         nodes = case["nodes"]
         for k, v in case["ctx"].items():
             ctx.setdefault(k, v)
